@@ -16,6 +16,7 @@ import (
 	"path/filepath"
 	"sort"
 	"strings"
+	"time"
 )
 
 type Stats struct {
@@ -97,8 +98,12 @@ func main() {
 			if line == "" || strings.HasPrefix(line, "#") {
 				continue
 			}
-			fmt.Fprintln(w, execOp(line))
+			res, done := execWatched(line)
+			fmt.Fprintln(w, res)
 			w.Flush()
+			if !done {
+				os.Exit(3)
+			}
 		}
 	case "corr":
 		fs := flag.NewFlagSet("corr", flag.ExitOnError)
@@ -146,8 +151,19 @@ func main() {
 			if i := strings.IndexByte(line, '\t'); i >= 0 {
 				line, lean = line[:i], strings.TrimSpace(line[i+1:])
 			}
-			res := execOp(line)
-			b, _ := json.Marshal(map[string]string{"op": line, "result": clip(res, 4000), "why": propertyFailsL(*prop, line, res, lean)})
+			res, done := execWatched(line)
+			why := ""
+			if done {
+				why = propertyFailsL(*prop, line, res, lean)
+			} else {
+				why = "operation did not return within " + opTimeout.String() + " (loops without bound)"
+			}
+			b, _ := json.Marshal(map[string]string{"op": line, "result": clip(res, 4000), "why": why})
+			if !done {
+				fmt.Fprintln(w, string(b))
+				w.Flush()
+				os.Exit(3)
+			}
 			fmt.Fprintln(w, string(b))
 			w.Flush()
 		}
@@ -177,9 +193,17 @@ func runCorr(prop string, seed uint64, n int, opsPath, outPath, statsPath, corpu
 	var hits []map[string]string
 	hitsByWhy := map[string]int{}
 	emit := func(op string) {
-		res := execOp(op)
+		res, done := execWatched(op)
 		fmt.Fprintln(ow, op)
 		fmt.Fprintln(gw, res)
+		if !done {
+			// the stuck goroutine keeps a core busy: record, flush and leave
+			hits = append(hits, map[string]string{"op": op, "result": res, "why": "operation did not return within " + opTimeout.String() + " (loops without bound)"})
+			ow.Flush()
+			gw.Flush()
+			writeHits(outPath, hits, hitsByWhy)
+			os.Exit(3)
+		}
 		st.add(op, res, seen)
 		if why := propertyFails(prop, op, res); why != "" {
 			key := whyKey(why)
@@ -189,19 +213,7 @@ func runCorr(prop string, seed uint64, n int, opsPath, outPath, statsPath, corpu
 			}
 		}
 	}
-	defer func() {
-		f, err := os.Create(filepath.Join(filepath.Dir(outPath), "oracle.jsonl"))
-		if err != nil {
-			return
-		}
-		defer f.Close()
-		for _, h := range hits {
-			b, _ := json.Marshal(h)
-			fmt.Fprintln(f, string(b))
-		}
-		b, _ := json.Marshal(map[string]interface{}{"counts": hitsByWhy})
-		fmt.Fprintln(f, string(b))
-	}()
+	defer func() { writeHits(outPath, hits, hitsByWhy) }()
 	// corpus first
 	if corpus != "" {
 		files, _ := filepath.Glob(filepath.Join(corpus, "*.txt"))
@@ -237,6 +249,20 @@ func runCorr(prop string, seed uint64, n int, opsPath, outPath, statsPath, corpu
 	}
 }
 
+func writeHits(outPath string, hits []map[string]string, hitsByWhy map[string]int) {
+	f, err := os.Create(filepath.Join(filepath.Dir(outPath), "oracle.jsonl"))
+	if err != nil {
+		return
+	}
+	defer f.Close()
+	for _, h := range hits {
+		b, _ := json.Marshal(h)
+		fmt.Fprintln(f, string(b))
+	}
+	b, _ := json.Marshal(map[string]interface{}{"counts": hitsByWhy})
+	fmt.Fprintln(f, string(b))
+}
+
 func hashString(s string) uint64 {
 	var h uint64 = 1469598103934665603
 	for i := 0; i < len(s); i++ {
@@ -244,6 +270,22 @@ func hashString(s string) uint64 {
 		h *= 1099511628211
 	}
 	return h
+}
+
+// opTimeout: an operation that does not return within this time is reported as `timeout` and the process exits
+// with status 3 (a goroutine stuck in a loop cannot be stopped any other way)
+var opTimeout = 20 * time.Second
+
+// execWatched runs one op; ok=false when it did not return in time
+func execWatched(op string) (res string, ok bool) {
+	ch := make(chan string, 1)
+	go func() { ch <- execOp(op) }()
+	select {
+	case r := <-ch:
+		return r, true
+	case <-time.After(opTimeout):
+		return "timeout", false
+	}
 }
 
 // whyKey: the reason with its numbers blanked, to group oracle hits
